@@ -19,6 +19,9 @@ import weakref
 import datetime as _dt
 
 
+_REAL_ID = id       # the seams themselves always see real identities
+
+
 class SimCrash(BaseException):
     """A crash injected at an arbitrary line of propka code."""
 
@@ -119,7 +122,7 @@ class AddressSeam:
         self.layout = Layout(model, seed)
 
     def _register(self, obj):
-        k = id(obj)
+        k = _REAL_ID(obj)
         ent = self.table.get(k)
         if ent is not None and ent[1]() is obj:
             return ent[0]
@@ -194,6 +197,63 @@ class AddressSeam:
         if not any(n == '__hash__' and had for _, n, _, had in self.installed):
             self.notes.append('no identity-hash class found under propka: '
                               'address seam idle')
+
+
+class IdSeam:
+    """builtins.id() for instances of propka classes, served by a simulated
+    allocator that hands the address of a dead object to a later object of the
+    same type with probability `reuse` (seeded).  id() promises uniqueness
+    among simultaneously live objects only and CPython's free lists recycle
+    addresses in just this way, so every sequence produced here is a legal
+    allocation pattern; native runs reach such a collision only by chance.
+    Objects of other types keep their real id()."""
+    BASE = 1 << 60
+
+    def __init__(self, seed, reuse=0.75):
+        self.rng = random.Random(seed)
+        self.reuse = reuse
+        self.table = {}
+        self.free = {}
+        self.n = 0
+        self.assigned = 0
+        self.recycled = 0
+
+    def __call__(self, obj):
+        t = type(obj)
+        mod = getattr(t, '__module__', None)
+        if not (isinstance(mod, str) and mod.startswith('propka')):
+            return _REAL_ID(obj)
+        k = _REAL_ID(obj)
+        table, free = self.table, self.free
+        ent = table.get(k)
+        if ent is not None and ent[1]() is obj:
+            return ent[0]
+        pool = free.get(t)
+        if pool and self.rng.random() < self.reuse:
+            addr = pool.pop(self.rng.randrange(len(pool)))
+            self.recycled += 1
+        else:
+            self.n += 1
+            addr = self.BASE + 16 * self.n
+
+        def _gone(ref, k=k, t=t, addr=addr):
+            ent = table.get(k)
+            if ent is not None and ent[1] is ref:
+                del table[k]
+                free.setdefault(t, []).append(addr)
+        try:
+            ref = weakref.ref(obj, _gone)
+        except TypeError:
+            return k
+        table[k] = (addr, ref)
+        self.assigned += 1
+        return addr
+
+    def install(self):
+        builtins.id = self
+
+    def uninstall(self):
+        builtins.id = _REAL_ID
 
 
 # --------------------------------------------------------------------------
